@@ -3,7 +3,7 @@ from pyvc.vals import *          # noqa: F401,F403
 
 REG = globals().get("REG")
 
-REG.fields("DataView", _valid=Bool, _slices=Opt(SeqOf(Slice)), _error_message=Dyn,
+REG.fields("DataView", _valid=Bool, _slices=Dyn, _error_message=Dyn,
            array=Obj("DataArray"), _h5group=Obj("H5Group"))
 
 WINDOW = "has_bounds(dvslice) and step_is(dvslice, 1) and 0 <= istart(dvslice) and istart(dvslice) <= istop(dvslice)"
@@ -114,6 +114,14 @@ def n_ellipsis_gt1(ex, p, us):
 
 
 @REG.specfunc()
+def too_many(ex, p, us, rank):
+    """more index entries (not counting the Ellipsis) than dimensions: NumPy raises IndexError"""
+    U = _user_seq(us)
+    has = z3.Contains(U, z3.Unit(Val.VEllipsis))
+    return VBool(z3.Length(U) - z3.If(has, 1, 0) > rank.t)
+
+
+@REG.specfunc()
 def expand(ex, p, us, rank):
     """NumPy index normalisation: the single Ellipsis (or the end) is padded with slice(None) up to rank"""
     U = _user_seq(us)
@@ -163,9 +171,10 @@ REG.contract(
     requires=["field(self, '_valid')", "is_index(user_slices)"],
     let="rank = len(as_sliceseq(field(self, '_slices')))",
     result=SeqOf(Dyn),
-    raises={"IndexError": ("n_ellipsis_gt1(user_slices)", "prop")},
-    ensures=[("exp.eq", "seq_eq(result, expand(user_slices, rank))", "prop")],
-    prop_clauses=["exp.eq", "raises-iff:IndexError", "raises-only:IndexError"],
+    raises={"IndexError": ("n_ellipsis_gt1(user_slices) or too_many(user_slices, rank)", "prop")},
+    ensures=[("exp.eq", "seq_eq(result, expand(user_slices, rank))", "prop"),
+             ("exp.len", "len(result) == rank", "prop")],
+    prop_clauses=["exp.eq", "exp.len", "raises-iff:IndexError", "raises-only:IndexError"],
 )
 
 REG.contract(
@@ -175,11 +184,12 @@ REG.contract(
     let="W = as_sliceseq(field(self, '_slices')); E = expand(user_slices, len(W)); "
         "n = min(len(W), len(E))",
     result=SeqOf(Dyn),
-    raises={"IndexError": ("n_ellipsis_gt1(user_slices)", "prop"),
+    raises={"IndexError": ("n_ellipsis_gt1(user_slices) or too_many(user_slices, len(W))", "prop"),
             "OutOfBounds": ("any(tr_oob(W[j], E[j]) for j in range(n))", "prop"),
             "ValueError": ("any(tr_valerr(W[j], E[j]) for j in range(n))", "prop"),
             "TypeError": ("any(tr_typeerr(E[j]) for j in range(n))", "helper")},
-    ensures=[("tc.eq", "seq_eq(result, transform(W, E))", "prop")],
+    ensures=[("tc.eq", "seq_eq(result, transform(W, E))", "prop"),
+             ("tc.rank", "len(result) == len(W) and len(E) == len(W)", "prop")],
     loops={0: dict(var="k", cells=dict(tslices=Dyn),
                    reveal=["tr_elem(as_sliceseq(dvslices)[k], user_slices[k])",
                            "tr_oob(as_sliceseq(dvslices)[k], user_slices[k])",
@@ -190,6 +200,103 @@ REG.contract(
                         "all(not tr_oob(as_sliceseq(dvslices)[j], user_slices[j]) "
                         "and not tr_valerr(as_sliceseq(dvslices)[j], user_slices[j]) "
                         "and not tr_typeerr(user_slices[j]) for j in range(k))"])},
-    prop_clauses=["tc.eq", "raises-only:OutOfBounds", "raises-iff:OutOfBounds", "raises-only:ValueError",
+    prop_clauses=["tc.eq", "tc.rank", "raises-only:OutOfBounds", "raises-iff:OutOfBounds", "raises-only:ValueError",
                   "raises-iff:ValueError", "raises-only:IndexError", "raises-iff:IndexError"],
 )
+
+# --------------------------------------------------------------------------
+# construction, reading and writing through a view
+# --------------------------------------------------------------------------
+REG.contract(
+    "np.array", assumed=True, params=dict(x=Dyn), result=Dyn, ensures=["result == uf('np.array', x)"])
+
+SLICES_DOMAIN = ("is_none(slices) or (is_valseq(slices) and all(is_none(s) or (is_slice(s) and has_bounds(as_slice(s)) "
+                 "and step_none(as_slice(s))) for s in as_valseq(slices)))")
+
+
+@REG.specfunc()
+def step_none(ex, p, sl):
+    return VBool(OptI.is_NoneI(SliceDT.sl_step(sl.t)))
+
+
+REG.contract(
+    "nixio.data_view.DataView.__init__", props=["C06"],
+    params=dict(self=Obj("DataView"), da=Obj("DataArray"), slices=Dyn),
+    requires=[SLICES_DOMAIN, "obj(da) != 0", "dataset_of(da) != 0"],
+    let="N = dshape(dataset_of(da)); S = as_valseq(slices)",
+    modifies=["heap._valid@self", "heap._slices@self", "heap._error_message@self", "heap.array@self",
+              "heap._h5group@self"],
+    ensures=[
+        # property: a view is valid exactly when its window lies inside the array
+        ("v.iff", "field(self, '_valid') == (not is_none(slices) and all(not is_none(s) for s in S) and len(S) == len(N) "
+                  "and all(0 <= istart(as_slice(S[j])) and istart(as_slice(S[j])) <= istop(as_slice(S[j])) "
+                  "and istop(as_slice(S[j])) <= N[j] for j in range(len(S))))", "prop"),
+        ("v.win", "field(self, '_valid') implies (is_sliceseq(field(self, '_slices')) and "
+                  "len(as_sliceseq(field(self, '_slices'))) == len(N) and "
+                  "all(as_sliceseq(field(self, '_slices'))[j] == mk_slice(istart(as_slice(S[j])), istop(as_slice(S[j])), 1) "
+                  "for j in range(len(N))))", "prop"),
+        ("v.arr", "field(self, 'array') == da and field(self, '_h5group') == field(da, '_h5group')", "helper"),
+    ],
+    prop_clauses=["v.iff", "v.win"])
+
+REG.contract(
+    "nixio.data_array.DataArray._read_data", assumed=True, props=[],
+    params=dict(self=Obj("DataArray"), sl=Dyn), defaults=dict(sl=NONE), result=Dyn,
+    requires=["obj(self) != 0", "dataset_of(self) != 0"],
+    raises={"IndexError": ("h5_refuses(dataset_of(self), sl)", "helper")},
+    ensures=["result == da_read(self, sl)"],
+    note="verified separately under C15 (calibrated read); here only its functional summary is used")
+
+
+@REG.specfunc()
+def da_read(ex, p, da, idx):
+    """what DataArray._read_data returns for index idx in the current store (defined under C15)"""
+    from sidecar_b_store import dataset_of
+    from sidecar_a_common import obj
+    ds = dataset_of(ex, p, da)
+    o = obj(ex, p, da)
+    f = z3.Function("spec_da_read_calibrated", IntS, IntS, p.sigma["data"].sort(), p.sigma["attr"].sort(),
+                    p.sigma["link"].sort(), Val, Val)
+    return VDyn(f(o.t, ds.t, p.sigma["data"], p.sigma["attr"], p.sigma["link"], box(ex.deref(p, idx))))
+
+
+DV_OK = ["obj(field(self, 'array')) != 0", "dataset_of(field(self, 'array')) != 0",
+         "field(self, '_h5group') == field(field(self, 'array'), '_h5group')"]
+
+REG.contract(
+    "nixio.data_view.DataView._read_data", props=["C06", "C15"],
+    params=dict(self=Obj("DataView"), sl=Dyn),
+    requires=DV_OK + ["is_none(sl) or is_index(sl)"],
+    let="W = as_sliceseq(field(self, '_slices')); E = expand(sl, len(W)); n = min(len(W), len(E)); A = field(self, 'array')",
+    result=Dyn,
+    raises={"IndexError": ("field(self, '_valid') and not is_none(sl) and (n_ellipsis_gt1(sl) or too_many(sl, len(W)))", "prop"),
+            "OutOfBounds": ("field(self, '_valid') and not is_none(sl) and any(tr_oob(W[j], E[j]) for j in range(n))", "prop"),
+            "ValueError": ("field(self, '_valid') and not is_none(sl) and any(tr_valerr(W[j], E[j]) for j in range(n))", "prop"),
+            "TypeError": ("field(self, '_valid') and not is_none(sl) and any(tr_typeerr(E[j]) for j in range(n))", "helper"),
+            "IndexError#h5": ("field(self, '_valid') and h5_refuses(dataset_of(A), ite_(is_none(sl), field(self, '_slices'), "
+                              "boxed(transform(W, E))))", "helper")},
+    ensures=[("rd.invalid", "(not field(self, '_valid')) implies result == uf('np.array', boxed(()))", "prop"),
+             ("rd.whole", "(field(self, '_valid') and is_none(sl)) implies result == da_read(A, field(self, '_slices'))", "prop"),
+             ("rd.index", "(field(self, '_valid') and not is_none(sl)) implies "
+                          "result == da_read(A, boxed(transform(W, E)))", "prop")],
+    prop_clauses=["rd.invalid", "rd.whole", "rd.index", "raises-only:OutOfBounds", "raises-iff:OutOfBounds",
+                  "raises-only:IndexError", "raises-iff:IndexError"])
+
+REG.contract(
+    "nixio.data_view.DataView._write_data", props=["C06"],
+    params=dict(self=Obj("DataView"), data=Dyn, sl=Dyn),
+    requires=DV_OK + ["is_none(sl) or is_index(sl)"],
+    let="W = as_sliceseq(field(self, '_slices')); E = expand(sl, len(W)); n = min(len(W), len(E)); A = field(self, 'array'); "
+        "T = ite_(is_none(sl), field(self, '_slices'), boxed(transform(W, E)))",
+    modifies=["data"],
+    raises={"InvalidSlice": ("not field(self, '_valid')", "prop"),
+            "IndexError": ("field(self, '_valid') and not is_none(sl) and (n_ellipsis_gt1(sl) or too_many(sl, len(W)))", "prop"),
+            "OutOfBounds": ("field(self, '_valid') and not is_none(sl) and any(tr_oob(W[j], E[j]) for j in range(n))", "prop"),
+            "ValueError": ("field(self, '_valid') and not is_none(sl) and any(tr_valerr(W[j], E[j]) for j in range(n))", "prop"),
+            "TypeError": ("field(self, '_valid') and not is_none(sl) and any(tr_typeerr(E[j]) for j in range(n))", "helper"),
+            "TypeError#conv": ("field(self, '_valid') and h5_refuses_write(dataset_of(A), T, data)", "helper")},
+    # property: assigning through a view changes exactly the addressed elements of the underlying array
+    ensures=[("wr.addr", "same(sigma('data'), store_data(old(sigma('data')), dataset_of(A), "
+                         "ds_write(old(ddata(dataset_of(A))), T, data)))", "prop")],
+    prop_clauses=["wr.addr", "raises-only:OutOfBounds", "raises-iff:OutOfBounds", "raises-iff:InvalidSlice",
+                  "raises-only:InvalidSlice"])
